@@ -264,6 +264,16 @@ def lib_case(rng):
         again = rng.choice([outside, "uses.yaml", "a.yaml", outside])
         lib = {"actions": [{"input": outside}, {"root": rng.choice([".", "sub"])}, {"input": again}]}
         kind = "lib:merge-then-root"
+    if rng.random() < 0.15:
+        # a SetRoot that is REFUSED (it would widen or leave the root) and a caller that carries on: the root set before
+        # still confines what follows (links leaving the root, decoys by path)
+        c["layout"]["root/lnk.yaml"] = {"link": "../outside/decoy.yaml"}
+        c["layout"]["root/labs.yaml"] = {"link": "{W}/outside/decoy.yaml"}
+        bad_root = rng.choice(["/", "..", "{W}", "../outside", "{W}/outside", "ldout", "nosuchdir"])
+        first = rng.choice([".", "sub", "{W}/root"])
+        follow = rng.choice(["lnk.yaml", "labs.yaml", "../outside/decoy.yaml", "{W}/outside/decoy.yaml", "a.yaml", "ldout/decoy.yaml", "{W}/root/lnk.yaml"])
+        lib = {"actions": [{"root": first}, {"tryroot": bad_root}, {"input": follow}]}
+        kind = "lib:refused-root-then-input"
     return dict(c, lib=lib, meta={"kind": kind})
 
 
@@ -324,7 +334,7 @@ def evaluate_lib(rep, cases):
         d = None
         if a[0] == "bad":
             d = "implementation " + a[1]
-        elif "actions" not in c["lib"] and not (a == b == g) and not (a[0] == b[0] == g[0] == "err"):
+        elif ("actions" not in c["lib"] or c["meta"]["kind"] == "lib:refused-root-then-input") and not (a == b == g) and not (a[0] == b[0] == g[0] == "err"):
             # (when a file was legitimately read before any root was set, the result may depend on it: the model decides)
             d = "library result depends on a file outside the root(s) set with SetRoot"
         elif "actions" not in c["lib"] and a[0] == "ok" and ("AAA" in str(a[1]) or "leak" in str(a[1])):
